@@ -304,11 +304,9 @@ class projectQEngine(quantumEngine):
             raise quantumError("Cannot merge: qubits exceed the maximum available.\n")
 
         # Check whether there are in fact qubits to tensor up....
-        if self.activeQubits == 0:
-            self.eng = other.eng
-            self.qubitReg = list(other.qubitReg)
-            self.activeQubits = other.activeQubits
-        elif other.activeQubits > 0:
+        # (always copy the state: sharing the other register's engine and qubit objects
+        # lets the other register's destructor measure out the qubits absorbed here)
+        if other.activeQubits > 0:
             data = other.get_register_RI()
             self.absorb_parts(*data, other.activeQubits)
 
